@@ -31,8 +31,8 @@ RULE = (
 
 
 class KGen:
-    def __init__(self, rng, accum=0.0, inplace=0.0, uninit=0.0):
-        self.inplace, self.uninit = inplace, uninit
+    def __init__(self, rng, accum=0.0, inplace=0.0, uninit=0.0, views=0.0):
+        self.inplace, self.uninit, self.views = inplace, uninit, views
         self.r = rng
         self.n = 0
         self.tag = 0
@@ -42,7 +42,7 @@ class KGen:
 
     def stmt(self, depth, top):
         r = self.r
-        k = r.choices(["gen", "gen2", "alloc", "for"], [5, 3, (2 if self.uninit else 1) if top else 0, (4 if self.uninit else 2) if depth < 2 else 0])[0]
+        k = r.choices(["gen", "gen2", "alloc", "for"], [5, 3, (2 if self.uninit or self.views else 1) if top else 0, (4 if self.uninit else 2) if depth < 2 else 0])[0]
         if k == "alloc":
             self.n += 1
             b = f"%b{self.n}"
@@ -52,6 +52,12 @@ class KGen:
             self.n += 1
             return {"k": "for", "iv": f"%i{self.n}", "ub": r.choice(["%n0", "%n1"]), "body": [self.stmt(depth + 1, False) for _ in range(r.randint(1, 3))]}
         self.tag += 1
+        full = [b for b in self.bufs if b.startswith("%b") and b in self.written]
+        if self.views and full and r.random() < self.views:
+            # a kernel on halves of local buffers (subviews); both buffers are completely filled already
+            src, dst = r.choice(full), r.choice(full)
+            so = r.choice([0, 2])
+            return {"k": "vgen", "src": src, "soff": so, "dst": dst, "doff": (2 - so) if src == dst else r.choice([0, 2]), "tag": self.tag}
         # locals are written before they are read (uninitialised reads are not comparable)
         readable = [b for b in self.bufs if b.startswith("%a") or b in self.written]
         if self.uninit and depth > 0 and r.random() < self.uninit:
@@ -60,6 +66,8 @@ class KGen:
         nin = 1 if k == "gen" else 2
         ins = [r.choice(readable) for _ in range(nin)]
         outs = [b for b in self.bufs if b not in ins]
+        if self.views and r.random() < 0.5 and any(b.startswith("%b") for b in outs):
+            outs = [b for b in outs if b.startswith("%b")]  # fill local buffers first, there is nothing to take views of otherwise
         out = r.choice(outs)
         if self.inplace and r.random() < self.inplace:
             out = ins[0]  # in place: the same buffer on the input and on the output side
@@ -77,10 +85,18 @@ class KGen:
 TD = "memref<2x?xi32>"  # static dimension in front of a dynamic one
 
 
+TSTR = f"memref<{E}xi32, strided<[2], offset: 1>>"  # an argument that is a strided window of a larger buffer
+TV = "memref<2xi32, strided<[1], offset: {o}>>"
+
+
 def kernels_emit(ast):
     L = []
     dyn = bool(ast.get("dyn"))
     T = TD if dyn else globals()["T"]
+    strided = {f"%a{i}" for i in ast.get("strided_args", [])}
+
+    def ty(b):
+        return TSTR if b in strided else T
     amap = "affine_map<(d0, d1) -> (d0, d1)>" if dyn else "affine_map<(d0) -> (d0)>"
     iters = '"parallel", "parallel"' if dyn else '"parallel"'
 
@@ -95,6 +111,15 @@ def kernels_emit(ast):
                 e(ind, f'scf.for {s["iv"]} = %c0 to {s["ub"]} step %c1 {{')
                 stmts(ind + 1, s["body"])
                 e(ind, "}")
+            elif s["k"] == "vgen":
+                t_ = s["tag"]
+                e(ind, f'%vs{t_} = memref.subview {s["src"]}[{s["soff"]}][2][1] : {T} to {TV.format(o=s["soff"])}')
+                e(ind, f'%vd{t_} = memref.subview {s["dst"]}[{s["doff"]}][2][1] : {T} to {TV.format(o=s["doff"])}')
+                e(
+                    ind,
+                    f'linalg.generic {{indexing_maps = [{amap}, {amap}], iterator_types = [{iters}], doc = "k{t_}"}} '
+                    f'ins(%vs{t_} : {TV.format(o=s["soff"])}) outs(%vd{t_} : {TV.format(o=s["doff"])}) {{\n^bb0(%x0 : i32, %x1 : i32):\n  linalg.yield %x0 : i32\n}}',
+                )
             else:
                 n = len(s["ins"])
                 maps = ", ".join([amap] * (n + 1))
@@ -102,12 +127,12 @@ def kernels_emit(ast):
                 e(
                     ind,
                     f'linalg.generic {{indexing_maps = [{maps}], iterator_types = [{iters}], doc = "k{s["tag"]}"}} '
-                    f'ins({", ".join(s["ins"])} : {", ".join([T] * n)}) outs({s["out"]} : {T}) {{\n^bb0({args}):\n'
+                    f'ins({", ".join(s["ins"])} : {", ".join(ty(b) for b in s["ins"])}) outs({s["out"]} : {ty(s["out"])}) {{\n^bb0({args}):\n'
                     + (f"  %acc = arith.addi %x0, %x{n} : i32\n  linalg.yield %acc : i32\n}}" if s.get("acc") else "  linalg.yield %x0 : i32\n}"),
                 )
 
     e(0, "builtin.module {")
-    e(1, f"func.func public @f(%a0 : {T}, %a1 : {T}, %a2 : {T}, %n0 : index, %n1 : index) {{")
+    e(1, f"func.func public @f(%a0 : {ty('%a0')}, %a1 : {ty('%a1')}, %a2 : {ty('%a2')}, %n0 : index, %n1 : index) {{")
     e(2, "%c0 = arith.constant 0 : index")
     e(2, "%c1 = arith.constant 1 : index")
     if dyn:
@@ -156,10 +181,13 @@ def first_use_is_read(ast, what="discipline", lc_args=()):
     return all(c["kinds"][0] in ("r", "rw") or not ({"r", "rw"} & set(c["kinds"])) for cs in casts.values() for c in cs)
 
 
-def kargs(m: BufferMachine, env, dyn=False):
+def kargs(m: BufferMachine, env, dyn=False, strided=()):
     vs = []
     for i in range(3):
-        if dyn:
+        if i in strided:
+            b = m.new_buffer(f"a{i}", 2 * E + 1, external=True)
+            vs.append(View(b, 1, [E], [2]))
+        elif dyn:
             cols = env.get("cols", 3)
             b = m.new_buffer(f"a{i}", 2 * cols, external=True)
             vs.append(View(b, 0, [2, cols], [cols, 1]))
@@ -197,14 +225,18 @@ def compile_with_layout_casts(src, lc_args, clear, lc_allocs=()):
     except Exception as e:
         raise Rejected("set-memory-space", e)
     n = 0
+    alloc_no: dict = {}
     for op in list(mod.walk()):
         if not isinstance(op, linalg.GenericOp):
             continue
         for j, v in enumerate(op.operands):
             o = v.owner
-            if lc_allocs and isinstance(o, memref.AllocOp) and j < len(op.inputs):
-                # a local buffer that is read through a layout cast (and written directly: the allocation keeps its layout)
-                ty = Parser(ctx, f'memref<{E}xi32, #tsl.tsl<{LAYOUTS[(n + 1) % len(LAYOUTS)]}>, "L1">').parse_type()
+            if lc_allocs and isinstance(o, memref.AllocOp) and (j < len(op.inputs) or lc_allocs == "all"):
+                # a local buffer that is read through a layout cast (and written directly: the allocation keeps its layout);
+                # "all": written through a cast as well, every cast of one allocation asks for the same layout (the
+                # allocation can then simply be made in that layout)
+                which = (n + 1) if lc_allocs != "all" else alloc_no.setdefault(o, len(alloc_no))
+                ty = Parser(ctx, f'memref<{E}xi32, #tsl.tsl<{LAYOUTS[which % len(LAYOUTS)]}>, "L1">').parse_type()
                 lc = LayoutCast(v, ty)
                 Rewriter().insert_op(lc, InsertPoint.before(op))
                 op.operands[j] = lc.dest
@@ -222,6 +254,62 @@ def compile_with_layout_casts(src, lc_args, clear, lc_allocs=()):
     except Exception as e:
         raise Rejected("realize-memref-casts", e)
     return mod, n
+
+
+def _addressing(ty):
+    """element address (relative to the allocation's base) of a logical index, as the memref *type* prescribes; None if dynamic"""
+    from xdsl.dialects.builtin import NoneAttr, StridedLayoutAttr
+
+    from snaxc.dialects.tsl import TiledStridedLayoutAttr
+
+    shape = list(ty.get_shape())
+    if any(d < 0 for d in shape):
+        return None
+    lay = ty.layout
+    if isinstance(lay, NoneAttr):
+        strides, acc = [], 1
+        for d in reversed(shape):
+            strides.insert(0, acc)
+            acc *= d
+        return lambda idx: sum(i * st for i, st in zip(idx, strides))
+    if isinstance(lay, StridedLayoutAttr):
+        strides, off = lay.get_strides(), lay.get_offset()
+        if off is None or any(x is None for x in strides):
+            return None
+        return lambda idx: off + sum(i * st for i, st in zip(idx, strides))
+    if isinstance(lay, TiledStridedLayoutAttr):
+        tb = [[st.bound for _, st in ts] for ts in lay.data.tstrides]
+        steps = [[st.step for _, st in ts] for ts in lay.data.tstrides]
+        if any(x is None for row in tb + steps for x in row):
+            return None
+        off = lay.data.offset or 0
+        return lambda idx: address(idx, tb, steps, off)
+    return None
+
+
+def view_consistency(S):
+    """Static oracle: a memref.subview with static offsets / sizes / strides addresses, through its result type, exactly the
+    elements of its source (addressed through the source's type) it stands for.  Both types anchor at the same allocation."""
+    from xdsl.dialects import memref
+
+    for op in S.walk():
+        if not isinstance(op, memref.SubviewOp):
+            continue
+        if op.offsets or op.sizes or op.strides:
+            continue  # dynamic: not judged
+        offs = [int(x) for x in op.static_offsets.get_values()]
+        strs = [int(x) for x in op.static_strides.get_values()]
+        src, res = _addressing(op.source.type), _addressing(op.result.type)
+        shape = list(op.result.type.get_shape())
+        if src is None or res is None or len(shape) != len(offs) or any(d < 0 for d in shape):
+            continue
+        for idx in all_indices(shape):
+            want = src([o + i * st for o, i, st in zip(offs, idx, strs)])
+            got = res(idx)
+            if want != got:
+                return (f"memref.subview of a buffer of type {op.source.type}: element {tuple(idx)} of the view lies at element address {want} of the buffer, "
+                        f"the result type {op.result.type} puts it at {got}")
+    return None
 
 
 def run_kernels(case, out):
@@ -259,6 +347,17 @@ def run_kernels(case, out):
                     if ms is not None and str(ms) != '"L3"':
                         out.update(status="violation", oracle="function-boundary", message=f"argument type {t} does not keep the external memory space")
                         return out
+    # the boundary keeps everything but the memory space: shape, element type and layout of every argument
+    fp = next(o for o in P.walk() if isinstance(o, func.FuncOp) and o.sym_name.data == "f")
+    fs = next(o for o in S.walk() if isinstance(o, func.FuncOp) and o.sym_name.data == "f")
+    for t0, t1 in zip(fp.function_type.inputs, fs.function_type.inputs):
+        if hasattr(t0, "layout") and (t0.get_shape() != t1.get_shape() or t0.element_type != t1.element_type or t0.layout != t1.layout):
+            out.update(status="violation", oracle="function-boundary", message=f"argument type {t0} became {t1}: more than the memory space changed")
+            return out
+    bad_view = view_consistency(S)
+    if bad_view:
+        out.update(status="violation", oracle="view-layout", message=bad_view)
+        return out
     changed = "memref.copy" in compat.text(S)
     judged = first_use_is_read(case["ast"], lc_args=case.get("lc_args", ()))
     kernels = 0
@@ -268,10 +367,10 @@ def run_kernels(case, out):
         out["zero_fault_runs"] += 2
         ref = BufferMachine(P, 1, sequential=True)
         ref.taint = bool(case["ast"].get("uninit_reads"))
-        ref.run_single("f", kargs(ref, env, case["ast"].get("dyn")), Core(0))
+        ref.run_single("f", kargs(ref, env, case["ast"].get("dyn"), case["ast"].get("strided_args", ())), Core(0))
         sub = BufferMachine(S, 1, sequential=True)
         try:
-            sub.run_single("f", kargs(sub, env, case["ast"].get("dyn")), Core(0))
+            sub.run_single("f", kargs(sub, env, case["ast"].get("dyn"), case["ast"].get("strided_args", ())), Core(0))
         except Violation as v:
             out.update(status="violation", oracle=v.oracle, message=v.message, env_index=i)
             return out
@@ -520,11 +619,15 @@ def gen_case(rng, tier):
                 "kind": rng.choice(["const", "const", "global", "global", "global-two-gets", "global-two-casts", "global-two-funcs", "global-two-layouts", "global-chain", "global-msc-two-layouts"]), "mul": rng.choice([1, 3, 7])}
     accum = rng.choice([0, 0, 0, 0.3])
     uninit = rng.choice([0, 0, 0, 0.4])
-    ast = KGen(rng, accum, inplace=rng.choice([0, 0, 0.2]), uninit=uninit).program()
+    dyn = rng.random() < 0.15
+    views = 0 if dyn else rng.choice([0, 0, 0.3, 0.5])  # kernels on subviews (halves) of completely filled local buffers
+    ast = KGen(rng, accum, inplace=rng.choice([0, 0, 0.2]), uninit=uninit, views=views).program()
     if uninit:
         ast["uninit_reads"] = True
+    if not dyn and rng.random() < 0.2:
+        ast["strided_args"] = sorted(rng.sample([0, 1, 2], rng.choice([1, 2])))  # arguments that are strided windows of a larger buffer
     envs = [{"n": [rng.choice([0, 1, 2]), rng.choice([0, 1, 2])]} for _ in range(K_ENVS[tier])]
-    if rng.random() < 0.15:
+    if dyn:
         ast["dyn"] = True  # all buffers are 2 x ? (run-time number of columns 1..4): stand-ins are sized with memref.dim
         for e in envs:
             e["cols"] = rng.choice([1, 2, 3, 4])
@@ -532,8 +635,10 @@ def gen_case(rng, tier):
     if rng.random() < 0.25 and not ast.get("dyn"):
         # chains of casts: every kernel operand standing for these arguments gets its own layout cast on top of the L1 cast
         case["lc_args"] = sorted(rng.sample([0, 1, 2], rng.choice([1, 1, 2, 3])))
-    if rng.random() < (0.6 if ast.get("uninit_reads") else 0.1) and not ast.get("dyn"):
+    if rng.random() < (0.6 if ast.get("uninit_reads") else 0.5 if views else 0.1) and not ast.get("dyn"):
         case["lc_allocs"] = True  # local buffers are read through a layout cast (set-memory-space drops the site attribute: all of them)
+        if rng.random() < 0.4:
+            case["lc_allocs"] = "all"  # ... and written through one: all casts of a buffer agree on the layout
     return case
 
 
@@ -587,10 +692,14 @@ def shrink(case):
         yield dict(case, ast=dict(case["ast"], body=nb))
     if case["ast"].get("dyn"):
         yield dict(case, ast={k: v for k, v in case["ast"].items() if k != "dyn"})
+    if case["ast"].get("strided_args"):
+        yield dict(case, ast={k: v for k, v in case["ast"].items() if k != "strided_args"})
     if case["clear"]:
         yield dict(case, clear=False)
     if case.get("lc_allocs"):
         yield {k: v for k, v in case.items() if k != "lc_allocs"}
+        if case["lc_allocs"] == "all":
+            yield dict(case, lc_allocs=True)
     if case.get("lc_args"):
         yield {k: v for k, v in case.items() if k != "lc_args"}
         for a in case["lc_args"]:
